@@ -52,7 +52,10 @@ FIRST = {'C03-s1', 'C04-s1', 'C05-s1', 'C05-s2', 'C13-s1', 'C08-s2', 'C09-s1', '
          'C02-t1', 'C02-t2', 'C03-t2', 'C04-t2', 'C05-t1', 'C05-t2', 'C06-t1', 'C07-t2', 'C08-t1', 'C08-t2', 'C09-t1',
          'C09-t2', 'C11-t2', 'C12-t1', 'C12-t2', 'C13-t1', 'C15-t1', 'C16-t1', 'C17-t2', 'C18-t2', 'C19-t2', 'C20-t1',
          'C03-u1', 'C03-u2', 'C04-u1', 'C04-u2', 'C05-u1', 'C06-u1', 'C06-u2', 'C08-u1', 'C08-u2', 'C09-u1', 'C10-u1',
-         'C11-u2', 'C12-u1', 'C12-u2', 'C13-u1', 'C14-u1', 'C15-u1', 'C16-u1', 'C17-u1', 'C17-u2', 'C19-u1', 'C19-u2'}
+         'C11-u2', 'C12-u1', 'C12-u2', 'C13-u1', 'C14-u1', 'C15-u1', 'C16-u1', 'C17-u1', 'C17-u2', 'C19-u1', 'C19-u2',
+         'C01-v2', 'C03-v1', 'C04-v1', 'C05-v2', 'C07-v1', 'C07-v2', 'C08-v1', 'C09-v2', 'C10-v2', 'C11-v2', 'C12-v1',
+         'C12-v2', 'C13-v1', 'C13-v2', 'C14-v2', 'C15-v1', 'C15-v2', 'C16-v1', 'C16-v2', 'C17-v1', 'C17-v2', 'C18-v1',
+         'C18-v2', 'C19-v2', 'C20-v1'}
 n = c = 0
 for d in sorted(glob.glob(os.path.join(ROOT, 'seeded', '*'))):
     meta = json.load(open(os.path.join(d, 'meta.json')))
